@@ -43,7 +43,7 @@ def checkCF (toks : List String) : Option Verdict :=
 
 /-- fuel given to the model's loop: the harness's per-case alarm allows far fewer iterations of
 the real loop than would be needed to exhaust a *terminating* search of this length -/
-def mfFuel : Nat := 20000
+def mfFuel : Nat := 4000
 
 def showFrac (fr : Frac) : String := toString fr.num ++ "/" ++ toString fr.den
 
@@ -72,7 +72,10 @@ def checkMF (fm it xs : String) (res : String) : Option Verdict := do
   let branch := match r with
     | .ok p => exitName p.2
     | _ => model
-  some { model := model, spec := spec, cls := "", branch := "mf/" ++ fm ++ "/" ++ it ++ "/" ++ branch ++ (if clause.isEmpty then "" else "!" ++ clause),
+  let cls := match MakeFractionSpec.classify F I x mfFuel with
+    | some c => c.id
+    | none => ""
+  some { model := model, spec := spec, cls := cls, branch := "mf/" ++ fm ++ "/" ++ it ++ "/" ++ branch ++ (if clause.isEmpty then "" else "!" ++ clause),
          nontrivial := dom }
 
 end Cnl.Drv.C17
